@@ -323,6 +323,11 @@ def run(ctx, prop):
     from .. import bounds as BD
     hist["over_limit_runs"] = BD.must_refuse_family(ctx, oracle_fail, profiles=("debug", "release"), modes=("c", "cpp-skel", "rust", "java"), label="C16-over-limit")
     ctx.bump("evaluations", hist["over_limit_runs"])
+    # ---- targets that cannot be written (vlib/targets.py): exit 0 only with every expected file
+    # written; otherwise a diagnostic, and — for refusals — an untouched output location
+    from .. import targets as TG
+    hist["target_runs"] = TG.target_family(ctx, oracle_fail, profiles=("debug", "release"))
+    ctx.bump("evaluations", hist["target_runs"])
     known_lines = []
     for kid, k in listed.items():
         if kid in known_seen:
